@@ -17,6 +17,7 @@
 #include "regtab.h"
 
 #define NTABLES 9
+#define NTABLES_THOROUGH 12
 #define MAXVALS 12
 
 static struct tab tb;
@@ -136,6 +137,33 @@ make_table(int ti, struct tspec *s)
         s->r[0] = mkr(REG_TYPE_UINT16, 0x20, K_FAIL, 0, 0, 0x00aa);
         s->r[1] = mkr(REG_TYPE_UINT16, 0x21, K_RANGE, 5, 10, 7);
         s->r[2] = mkr(REG_TYPE_UINT32, 0x22, K_FAIL, 0, 0, 0x00010002);
+        break;
+    case 9: /* thorough: LE, callback-backed, three registers over seven words: s32 range, f64 min, u16 unconstrained */
+        s->be = false;
+        s->a[0] = (struct aspec){ 4, 7, REG_AF_RW, true, false };
+        s->nr = 3;
+        s->r[0] = mkr(REG_TYPE_SINT32, 4, K_RANGE, 0xfffeffffu /* -65537 */, 0x00010001, 0);
+        s->r[1] = mkr(REG_TYPE_FLOAT64, 6, K_MIN, db(-1.5), 0, db(2.0));
+        s->r[2] = mkr(REG_TYPE_UINT16, 10, K_NONE, 0, 0, 0x1234);
+        break;
+    case 10: /* thorough: BE, memory + read-only area: s64 min, u32 range, f32 unconstrained | u16 range */
+        s->be = true;
+        s->na = 2;
+        s->a[0] = (struct aspec){ 1, 8, REG_AF_RW, false, false };
+        s->a[1] = (struct aspec){ 9, 2, REG_AF_READABLE, false, false };
+        s->nr = 4;
+        s->r[0] = mkr(REG_TYPE_SINT64, 1, K_MIN, 0xffffffff00000001ull, 0, 0);
+        s->r[1] = mkr(REG_TYPE_UINT32, 5, K_RANGE, 0x00010002, 0x7ffe8001, 0x00010002);
+        s->r[2] = mkr(REG_TYPE_FLOAT32, 7, K_NONE, 0, 0, fb(0.0f));
+        s->r[3] = mkr(REG_TYPE_UINT16, 9, K_RANGE, 5, 10, 7);
+        break;
+    case 11: /* thorough: LE, memory, signed bounds below zero: s32 max -2, s64 range [-2^32-1, -3], s16 min -1 */
+        s->be = false;
+        s->a[0] = (struct aspec){ 0x7ffe, 7, REG_AF_RW, false, false };
+        s->nr = 3;
+        s->r[0] = mkr(REG_TYPE_SINT32, 0x7ffe, K_MAX, 0, 0xfffffffeu, 0xfffffff0u);
+        s->r[1] = mkr(REG_TYPE_SINT64, 0x8000, K_RANGE, 0xfffffffeffffffffull, 0xfffffffffffffffdull, 0xfffffffffffffffdull);
+        s->r[2] = mkr(REG_TYPE_SINT16, 0x8004, K_MIN, 0xffff, 0, 0);
         break;
     default: /* BE, callback-backed: u64 range alone */
         s->be = true;
@@ -861,12 +889,14 @@ int
 main(int argc, char **argv)
 {
     mc_init(argc, argv);
-    for (int ti = 0; ti < NTABLES; ++ti)
+    const int ntables = mc_thorough() ? NTABLES_THOROUGH : NTABLES;
+    /* the largest searches first, so that the shards are busy evenly */
+    for (int ti = ntables - 1; ti >= 0; --ti)
         run_table(ti);
-    for (int ti = 0; ti < NTABLES; ++ti)
+    for (int ti = 0; ti < ntables; ++ti)
         run_corruption(ti, mc_thorough());
     mc_finish(true, mc_thorough()
-                        ? "8 tables; fixpoint over typed set / bit set / bit clear / block write (every window) / sanitise with boundary operands; corruption: every image over {keep,0000,ffff,7f80,0001,one-past-bound} per word from every combination of valid register contents (default / first / last valid operand), sanitise once"
-                        : "8 tables; fixpoint over typed set / bit set / bit clear / block write (every window) / sanitise with boundary operands; corruption: every image over {keep,0000,ffff,one-past-bound} per word from every combination of valid contents of the first two registers, sanitise once");
+                        ? "12 tables (three of them with 3-4 registers over 7-10 words); fixpoint over typed set / bit set / bit clear / block write (every window) / sanitise with boundary operands and one-fault environment operations on callback-backed tables; corruption: every image over {keep,0000,ffff,7f80,0001,one-past-bound} per word from every combination of valid register contents (default / first / last valid operand), sanitise once"
+                        : "9 tables; fixpoint over typed set / bit set / bit clear / block write (every window) / sanitise with boundary operands and one-fault environment operations on callback-backed tables; corruption: every image over {keep,0000,ffff,one-past-bound} per word from every combination of valid contents of the first two registers, sanitise once");
     return 0;
 }
